@@ -210,6 +210,24 @@ def run(R):
             from_all = bool(base and base[0] == "call" and base[2].name() == "clone")
             R.ob("C19-R4", "tested-set-contains-candidate", "the consistency test runs on (all facts + the candidate fact)",
                  bool(ins) and from_all, where=wr.where(c.ln))
+            # ... and on every fact accepted before it: the copy is taken per candidate, or - when it is hoisted out of the candidate loops - what was
+            # accepted stays in it (a candidate is taken out again only when it was rejected)
+            if base and base[0] == "call":
+                inner = min(wr.loops_containing(c.bb), key=lambda hl: len(hl[1]))[1]
+                per_candidate = base[2].bb in inner
+                takes = [x for x in wr.calls() if x.name() in ("remove", "clear", "retain", "take", "drain") and x.args and wr.alias_root(x.args[0]) == tested
+                         and wr.loops_containing(x.bb)]
+                bad = []
+                for x in takes:
+                    cds = G.conditions(wr, x.bb)
+                    rejected = any(cd.get("kind") == "call" and cd["call"].name() == "violates_constraints" and cd.get("truth") is True for cd in cds)
+                    if not rejected:
+                        bad.append(x)
+                ok2 = per_candidate or not bad
+                R.ob("C19-R4", "tested-set-keeps-accepted", "the tested set contains every fact accepted so far in this round (copy taken per candidate: %s; "
+                     "removals not tied to a rejection: %d)" % (per_candidate, len(bad)), ok2, where=wr.where((bad[0].ln if bad else c.ln)),
+                     detail=None if ok2 else "two conclusions of one rule that are consistent one by one but complete a constraint body together are both "
+                     "accepted: the materialisation ends in an inconsistent fact set")
 
 
 def r6_r7(R):
